@@ -633,6 +633,7 @@ pub fn run_group(bytes: &[u8], spec: &GroupSpec, partner: Option<&[u8]>, st: &mu
                 let e: usize = g.split(':').nth(1).and_then(|s| s.parse().ok()).unwrap_or(0);
                 group_hintall(font, e, spec, &mut rng, st)
             }
+            "cffcap" => group_cffcap(font, spec, st),
             "color" => group_color(font, spec, &mut rng, st),
             "helpers" => group_helpers(font, spec, &mut rng, st),
             "probe" => group_probe(font, spec, st),
@@ -1338,6 +1339,68 @@ fn group_hintall(font: &FontRef, e: usize, spec: &GroupSpec, rng: &mut Rng, st: 
         for g in gids.iter().skip(t % 2).step_by(2) {
             let Some(og) = oc.get(GlyphId::new(*g)) else { continue };
             draw_hinted_all(&og, &inst, rng, spec.level, st);
+        }
+    }
+}
+
+/// Sizes at which the capacity-directed CFF glyphs are drawn (unscaled first).
+pub const CFFCAP_SIZES: [Option<f32>; 7] = [None, Some(8.0), Some(12.0), Some(16.0), Some(23.5), Some(64.0), Some(1000.0)];
+/// (engine, target) pairs that select skrifa's CFF hinter for a CFF / CFF2 font.
+pub const CFFCAP_HINT: [(usize, usize); 3] = [(0, 0), (0, 1), (3, 5)];
+
+/// EVERY glyph of a (small, generated) CFF / CFF2 font, unhinted in both path styles and hinted (the
+/// CFF hinter: Interpreter / AutoFallback engines, mono / smooth / light targets, pedantic off and
+/// on) at a few fixed sizes, at the default location and - CFF2 - at two non-default ones.
+/// `spec.index`: 0 = everything, k > 0 = only the k-th (size) slice (keeps big fonts inside the cpu bound).
+fn group_cffcap(font: &FontRef, spec: &GroupSpec, st: &mut Stats) {
+    let i = info(font);
+    let oc = font.outline_glyphs();
+    st.call();
+    let n = i.n_glyphs.min(96);
+    let is_cff2 = font.table_data(Tag::new(b"CFF2")).is_some();
+    let mut cvs: Vec<Vec<NormalizedCoord>> = vec![vec![]];
+    if is_cff2 {
+        cvs.push(vec![c(0x2000)]);
+        cvs.push(vec![c(0x4000), c(-0x4000), c(0x1000)]);
+    }
+    let sizes: Vec<Option<f32>> = if spec.index == 0 { CFFCAP_SIZES.to_vec() } else { vec![CFFCAP_SIZES[(spec.index as usize - 1) % CFFCAP_SIZES.len()]] };
+    for cv in &cvs {
+        for g in 0..n {
+            let og = oc.get(GlyphId::new(g));
+            st.opt(&og);
+            let Some(og) = og else { continue };
+            for s in &sizes {
+                for style in [PathStyle::FreeType, PathStyle::HarfBuzz] {
+                    let mut pen = CountPen::default();
+                    let r = og.draw(DrawSettings::unhinted(size_of(*s), LocationRef::new(cv)).with_path_style(style), &mut pen);
+                    draw_err_label(st, &r);
+                    st.count(if r.is_ok() { "cffcap_unhinted_draw_ok" } else { "cffcap_unhinted_draw_err" }, 1);
+                    st.count("pen_callbacks", pen.n);
+                }
+            }
+        }
+        for (e, t) in CFFCAP_HINT {
+            for s in &sizes {
+                let r = HintingInstance::new(&oc, size_of(*s), LocationRef::new(cv), options(e, t, &oc));
+                st.res("hint_instance_errors", &r);
+                st.count(if r.is_ok() { "hint_instance_ok" } else { "hint_instance_err" }, 1);
+                let Ok(inst) = r else { continue };
+                let mut d = Digest::new();
+                d.str(ENGINE_NAMES[e]);
+                d.dbg(&options(e, t, &oc).target);
+                st.distinct("hinting_configs", d.finish());
+                for g in 0..n {
+                    let Some(og) = oc.get(GlyphId::new(g)) else { continue };
+                    for pedantic in [false, true] {
+                        let mut pen = CountPen::default();
+                        let r = og.draw(DrawSettings::hinted(&inst, pedantic), &mut pen);
+                        draw_err_label(st, &r);
+                        st.count(if r.is_ok() { "cffcap_hinted_draw_ok" } else { "cffcap_hinted_draw_err" }, 1);
+                        st.count(if r.is_ok() { "hinted_draw_ok" } else { "hinted_draw_err" }, 1);
+                        st.count("pen_callbacks", pen.n);
+                    }
+                }
+            }
         }
     }
 }
